@@ -824,6 +824,8 @@ package go9p
 //@   at call((*SrvReq).RespondError) ghost nans := nans + 1
 //@   at call(SrvReqOps.Walk) requires [guard.notopen] !old(req.Fid.opened)
 //@   at call(SrvReqOps.Walk) requires [guard.dir] len(old(req.Tc.Wname)) == 0 || old(req.Fid.Type) & 128 != 0
+//@   at call(SrvReqOps.Walk) requires [inplace] old(req.Tc.Fid) == old(req.Tc.Newfid) ==> req.Newfid == req.Fid && req.Fid.refcount == wrap64s(old(req.Fid.refcount) + 1)
+//@   at call(SrvReqOps.Walk) requires [newfid] old(req.Tc.Fid) != old(req.Tc.Newfid) ==> req.Newfid != req.Fid && req.Newfid.refcount == 1 && req.Newfid.fid == old(req.Tc.Newfid) && req.Fid.refcount == old(req.Fid.refcount) && req.Newfid.User == old(req.Fid.User) && req.Newfid.Type == old(req.Fid.Type)
 //@   at call(SrvReqOps.Walk) requires [args] arg1 == req && req.Fid == old(req.Fid) && req.Tc == old(req.Tc) && req.Fid.User == old(req.Fid.User) && req.Newfid != nil
 //@   ensures  nfwd + nans == 1
 
@@ -1082,6 +1084,8 @@ package go9p
 //@   at call(AuthOps.AuthCheck) after authok := ret == nil
 //@   at call(SrvReqOps.Attach) ghost nfwd := nfwd + 1
 //@   at call((*SrvReq).RespondError)#2 requires [inuse] arg1 == Einuse && old(inmap(req.Conn.fidpool, req.Tc.Fid))
+//@   at call((*SrvReq).RespondError) requires [norefleak] forall k int :: old(inmap(req.Conn.fidpool, k)) && !(req.Afid != nil && k == old(req.Tc.Afid)) ==> req.Conn.fidpool[k].refcount == old(req.Conn.fidpool[k].refcount)
+//@   at call(SrvReqOps.Attach) requires [norefleak] forall k int :: old(inmap(req.Conn.fidpool, k)) && !(req.Afid != nil && k == old(req.Tc.Afid)) ==> req.Conn.fidpool[k].refcount == old(req.Conn.fidpool[k].refcount)
 //@   at call(SrvReqOps.Attach) requires [guard.auth] implements(srv.ops, "AuthOps") ==> authok
 //@   at call(SrvReqOps.Attach) requires [args] arg1 == req && req.Tc == old(req.Tc) && !old(inmap(req.Conn.fidpool, req.Tc.Fid)) && old(req.Tc.Fid) != 4294967295
 //@   ensures  nfwd + nans == 1
@@ -1111,6 +1115,7 @@ package go9p
 //@   assigns  everything
 //@ iface AuthOps.AuthCheck(op, fid, afid, aname) (err)
 //@   ensures  errwf(err)
+//@   opt preserve F.SrvFid.refcount M.uint32.p.SrvFid.dom M.uint32.p.SrvFid.val F.SrvReq.Afid F.SrvReq.Fid F.SrvReq.Newfid
 //@   assigns  everything
 
 // ---------------------------------------------------------------------------
@@ -1629,7 +1634,7 @@ package go9p
 
 //@ func (*Srv).clunkPost(srv, req)
 //@   property C04 C06
-//@   requires req != nil && (req.Fid != nil ==> !held(req.Fid) && req.Fid.Fconn != nil && !held(req.Fid.Fconn) && req.Fid.Fconn.Srv != nil)
+//@   requires req != nil && (req.Fid != nil ==> !held(req.Fid) && req.Fid.Fconn != nil && !held(req.Fid.Fconn) && req.Fid.Fconn.Srv != nil && req.Fid.refcount > -9223372036854775807)
 //@   ghost ndec int = 0
 //@   at call((*SrvFid).DecRef) ghost ndec := ndec + 1
 //@   at call((*SrvFid).DecRef) requires [fid] arg0 == old(req.Fid)
@@ -1638,9 +1643,20 @@ package go9p
 
 //@ func (*Srv).removePost(srv, req)
 //@   property C04 C06
-//@   requires req != nil && (req.Fid != nil ==> !held(req.Fid) && req.Fid.Fconn != nil && !held(req.Fid.Fconn) && req.Fid.Fconn.Srv != nil)
+//@   requires req != nil && (req.Fid != nil ==> !held(req.Fid) && req.Fid.Fconn != nil && !held(req.Fid.Fconn) && req.Fid.Fconn.Srv != nil && req.Fid.refcount > -9223372036854775807)
 //@   ghost ndec int = 0
 //@   at call((*SrvFid).DecRef) ghost ndec := ndec + 1
 //@   at call((*SrvFid).DecRef) requires [fid] arg0 == old(req.Fid)
 //@   ensures  [removed] (old(req.Rc) != nil && old(req.Fid) != nil) <==> ndec == 1
 //@   ensures  ndec <= 1
+
+//@ func (*SrvReq).PostProcess(req)
+//@   property C04 C06 C03
+//@   requires req != nil && req.Tc != nil && req.Conn != nil && req.Conn.Srv != nil && nolocks()
+//@   at call((*SrvFid).DecRef) assume arg0 != nil ==> arg0.Fconn != nil && arg0.Fconn.Srv != nil && arg0.refcount > -9223372036854775807
+//@   at call((*Srv).authPost) assume req.Rc != nil && req.Rc.Type == 103 ==> req.Afid != nil
+//@   at call((*Srv).attachPost) assume req.Rc != nil && req.Rc.Type == 105 ==> req.Fid != nil
+//@   at call((*Srv).walkPost) assume req.Rc != nil && req.Rc.Type == 111 && req.Newfid != nil ==> req.Fid != nil
+//@   at call((*Srv).readPost) assume req.Rc != nil && req.Rc.Type == 117 ==> req.Fid != nil
+//@   at call((*Srv).clunkPost) assume req.Fid != nil ==> req.Fid.Fconn != nil && req.Fid.Fconn.Srv != nil && req.Fid.refcount > -9223372036854775807
+//@   at call((*Srv).removePost) assume req.Fid != nil ==> req.Fid.Fconn != nil && req.Fid.Fconn.Srv != nil && req.Fid.refcount > -9223372036854775807
